@@ -45,14 +45,16 @@
 (*   Discriminates      whenever the placement differs from the packed     *)
 (*                      one, a reader assuming physical adjacency obtains  *)
 (*                      something else (so the cases can tell them apart)  *)
-(*   IndexSound / IndexComplete   operational look-up (walk, stop at first *)
-(*                      match) = the entry carrying the index, or none     *)
+(*   IndexResolution    operational look-up (walk, stop at first match) is *)
+(*                      sound and complete: = the entry carrying the       *)
+(*                      index, or none                                     *)
 (*   HasIndexesIff      operational scan = some vna_other # 0              *)
 (*   SymMatches         versym[i] (raw, hidden bit kept) is paired with    *)
 (*                      the name of dynamic symbol i                       *)
-(*   Progress, NeverStuck   the walk terminates: a lexicographic measure   *)
-(*                      decreases at every step and some step is enabled   *)
-(*                      until the walk is done                             *)
+(*   Progress, WalkGuard / NeverStuck   the walk terminates: a lexico-      *)
+(*                      graphic measure decreases at every step and some   *)
+(*                      step is enabled until the walk is done (guards     *)
+(*                      written out in the quick tier, ENABLED in thorough)*)
 (*   ImageWellFormed, LinksResolve, StringsAgree, NoDup   sanity of the    *)
 (*                      generated container                                *)
 (*                                                                         *)
@@ -75,7 +77,9 @@ CONSTANTS Modes,        \* subset of {"chains", "versym"}
           Patterns,     \* subset of {"packed", "padded", "reversed", "striped"}
           IAs,          \* index assignments, subset of {"seq", "gaps", "hidden", "none", "last", "first"}
           Containers,   \* subset of {"plain", "decoy", "rev"}
-          MaxEntries, MaxAux,
+          MaxEntries, MaxAux,   \* shape bounds for the <<class, little-endian, container>> combinations in BigCombos
+          SmallEntries, SmallAux,   \* ... and for all the others
+          BigCombos,
           NeedMode,     \* "rev": requirement shape = reversed definition shape; "free": every shape in bounds
           VsLens        \* versym table lengths explored in mode "versym"
 
@@ -131,14 +135,21 @@ CanonRec(F, rec) == [n \in FieldNames(F) |-> Canon(rec[n], Width(F[FieldIx(F, n)
 Far == 1073741823
 Num(v) == IF IsSmall(v) THEN v.n ELSE Far
 
-RECURSIVE ParseSeq(_, _, _, _, _)
-ParseSeq(F, i, bs, at, le) ==
-  IF i > Len(F) THEN <<>>
-  ELSE LET wd == Width(F[i][2], 32)
-           raw == Slice(bs, at + 1, wd)
-       IN <<CanonD(IF le THEN raw ELSE Rev(raw))>> \o ParseSeq(F, i + 1, bs, at + wd, le)
+\* one Half / Word at byte offset `at` (both are class independent)
+RdHalf(bs, at, le) == IF le THEN N(bs[at + 1] + 256 * bs[at + 2]) ELSE N(bs[at + 2] + 256 * bs[at + 1])
+RdWord(bs, at, le) ==
+  LET d == IF le THEN <<bs[at + 1], bs[at + 2], bs[at + 3], bs[at + 4]>> ELSE <<bs[at + 4], bs[at + 3], bs[at + 2], bs[at + 1]>>
+  IN IF d[4] < 64 THEN N(d[1] + 256 * (d[2] + 256 * (d[3] + 256 * d[4]))) ELSE W(d)
+RECURSIVE ParseFrom(_, _, _, _, _)
+ParseFrom(F, i, bs, at, le) ==
+  LET v == IF F[i][2] = "half" THEN RdHalf(bs, at, le) ELSE RdWord(bs, at, le) IN
+  IF i = Len(F) THEN F[i][1] :> v
+  ELSE (F[i][1] :> v) @@ ParseFrom(F, i + 1, bs, at + Width(F[i][2], 32), le)
 \* the record of layout F found at byte offset `at` of bs
-Parse(F, bs, at, le) == LET vs == ParseSeq(F, 1, bs, at, le) IN [n \in FieldNames(F) |-> vs[FieldIx(F, n)]]
+Parse(F, bs, at, le) == ParseFrom(F, 1, bs, at, le)
+ASSUME \A le \in BOOLEAN : /\ RdHalf(Fix(N(513), 2, le), 0, le) = CanonD(<<1, 2>>)
+                            /\ RdWord(Fix(N(67305985), 4, le), 0, le) = CanonD(<<1, 2, 3, 4>>)
+                            /\ RdWord(Fix(W(<<1, 2, 3, 200>>), 4, le), 0, le) = CanonD(<<1, 2, 3, 200>>)
 
 \* the NUL-terminated string at `pos` (gABI string table); linear scan
 StrAt(bs, pos) ==
@@ -227,14 +238,22 @@ OffOf(lay, k, j) == lay.offs[CHOOSE i \in 1..Len(lay.ord) : lay.ord[i] = <<k, j>
 Pool(o) == Tail(o.syms) \o [k \in 1..Len(o.need) |-> o.need[k].file]
            \o Flat([k \in 1..Len(o.def) |-> o.def[k].auxes])
            \o Flat([k \in 1..Len(o.need) |-> [j \in 1..Len(o.need[k].auxes) |-> o.need[k].auxes[j].name]])
-RECURSIVE CumOffs(_, _, _)
-CumOffs(pool, at, pre) == IF pool = <<>> THEN <<>>
-                          ELSE <<at + pre>> \o CumOffs(Tail(pool), at + pre + Len(Head(pool)) + 1, pre)
+\* balanced versions of Flat and of the running sum (tables of some hundred symbols: no deep recursion)
+RECURSIVE FlatB(_)
+FlatB(ss) == IF Len(ss) = 0 THEN <<>> ELSE IF Len(ss) = 1 THEN ss[1]
+             ELSE LET h == Len(ss) \div 2 IN FlatB(SubSeq(ss, 1, h)) \o FlatB(SubSeq(ss, h + 1, Len(ss)))
+RECURSIVE Running(_)
+Running(ns) == IF Len(ns) <= 1 THEN ns
+               ELSE LET h == Len(ns) \div 2
+                        a == Running(SubSeq(ns, 1, h))
+                        b == Running(SubSeq(ns, h + 1, Len(ns)))
+                    IN a \o [i \in 1..Len(b) |-> b[i] + a[h]]
 StrInfo(o) ==
   LET pool == Pool(o)
       pre == IF o.cont = "decoy" THEN 1 ELSE 0
-  IN [pool |-> pool, offs |-> CumOffs(pool, 1, pre),
-      bytes |-> <<0>> \o Flat([i \in 1..Len(pool) |-> Rep(120, pre) \o pool[i] \o <<0>>])]
+      ends == Running([i \in 1..Len(pool) |-> pre + Len(pool[i]) + 1])        \* end of string i, relative to offset 1
+  IN [pool |-> pool, offs |-> [i \in 1..Len(pool) |-> 1 + ends[i] - Len(pool[i]) - 1],
+      bytes |-> <<0>> \o FlatB([i \in 1..Len(pool) |-> Rep(120, pre) \o pool[i] \o <<0>>])]
 StrOffOf(st, name) == IF name = <<>> THEN 0 ELSE st.offs[CHOOSE i \in 1..Len(st.pool) : st.pool[i] = name]
 
 (* -------------------------------- Enc ---------------------------------- *)
@@ -266,8 +285,8 @@ EncSec(kind, o, st, lay) ==
 SymRec(o, st, i) ==
   [st_name |-> N(IF i = 1 THEN 0 ELSE st.offs[i - 1]), st_value |-> N(IF i = 1 THEN 0 ELSE 4096 + 16 * i),
    st_size |-> N(i - 1), st_info |-> N(IF i = 1 THEN 0 ELSE 18), st_other |-> Z, st_shndx |-> N(IF i = 1 THEN 0 ELSE 1)]
-EncSyms(o, st) == Flat([i \in 1..Len(o.syms) |-> Ser(SymF(o.cls), SymRec(o, st, i), o.cls, o.le)])
-EncVersym(o) == Flat([i \in 1..Len(o.versym) |-> Ser(VersymF, [ndx |-> N(o.versym[i])], 32, o.le)])
+EncSyms(o, st) == FlatB([i \in 1..Len(o.syms) |-> Ser(SymF(o.cls), SymRec(o, st, i), o.cls, o.le)])
+EncVersym(o) == FlatB([i \in 1..Len(o.versym) |-> Ser(VersymF, [ndx |-> N(o.versym[i])], 32, o.le)])
 
 DefLayout(o) == Layout("def", o.pattern, Shape(o.def))
 NeedLayout(o) == Layout("need", o.pattern, Shape(o.need))
@@ -302,9 +321,12 @@ HasIndexes(o) == \E k \in 1..Len(o.need) : \E j \in 1..Len(o.need[k].auxes) : o.
 Flip(x) == IF x >= Hidden THEN x - Hidden ELSE x + Hidden
 DefCarried(o) == {o.def[k].ndx : k \in 1..Len(o.def)}
 NeedCarried(o) == UNION {{o.need[k].auxes[j].other : j \in 1..Len(o.need[k].auxes)} : k \in 1..Len(o.need)}
-DefQueries(o) == DefCarried(o) \cup {Flip(x) : x \in DefCarried(o)} \cup {0, 7, Hidden + 7, 65535}
+\* indices looked up: every carried one, the hidden-bit twins of the smallest and the largest carried one,
+\* and some that nobody carries
+Twins(car) == IF car = {} THEN {} ELSE {Flip(Min(car)), Flip(Max(car))}
+DefQueries(o) == DefCarried(o) \cup Twins(DefCarried(o)) \cup {0, 7, Hidden + 7, 65535}
 NeedQueries(o) == LET car == NeedCarried(o) \ {0} IN
-                  car \cup {Flip(x) : x \in car} \cup {7, Hidden + 7, 65535} \cup (IF 0 \in NeedCarried(o) THEN {} ELSE {0})
+                  car \cup Twins(car) \cup {7, Hidden + 7, 65535} \cup (IF 0 \in NeedCarried(o) THEN {} ELSE {0})
 
 (* ------------------------------ container ------------------------------ *)
 DotDynsym == <<46, 100, 121, 110, 115, 121, 109>>
@@ -312,10 +334,11 @@ DotDynstr == <<46, 100, 121, 110, 115, 116, 114>>
 DotGnuVersion == <<46, 103, 110, 117, 46, 118, 101, 114, 115, 105, 111, 110>>
 DotGnuVersionD == DotGnuVersion \o <<95, 100>>
 DotGnuVersionR == DotGnuVersion \o <<95, 114>>
-\* "decoy": a second string table, also called .dynstr, with other content, comes first; only sh_link tells them apart
+\* "decoy": two more string tables, also called .dynstr, with other content, one before and one after the
+\* real one; only sh_link tells them apart
 SecOrder(cont) ==
   CASE cont = "plain" -> <<"dynsym", "dynstr", "versym", "verdef", "verneed">>
-    [] cont = "decoy" -> <<"decoy", "dynsym", "versym", "verdef", "verneed", "dynstr">>
+    [] cont = "decoy" -> <<"decoy", "dynsym", "versym", "verdef", "verneed", "dynstr", "decoy">>
     [] cont = "rev" -> <<"verneed", "verdef", "versym", "dynstr", "dynsym">>
 StrFirst(cont) == cont = "rev"
 SIdx(cont, kind) == (CHOOSE p \in 1..Len(SecOrder(cont)) : SecOrder(cont)[p] = kind) + (IF StrFirst(cont) THEN 1 ELSE 0)
@@ -356,8 +379,11 @@ DoReadAux(cx, ws) ==
                 !.cur = [what |-> "aux", r |-> a, name |-> StrAt(cx.str, Num(a[f.aname])).s]]
 DoFollowAux(ws) == [ws EXCEPT !.auxOff = Clamp(@ + ws.anext), !.pc = "aux"]
 DoAbandon(ws) == [ws EXCEPT !.pc = "next"]
-DoFollowNext(cx, ws) == IF ws.k < cx.count THEN [ws EXCEPT !.entryOff = Clamp(@ + ws.enext), !.pc = "entry"]
-                        ELSE [ws EXCEPT !.pc = "end"]
+\* leaving an entry forgets everything about its auxiliary chain (consumed or abandoned)
+DoFollowNext(cx, ws) ==
+  LET fresh == [ws EXCEPT !.auxOff = 0, !.j = 0, !.cnt = 0, !.anext = 0, !.enext = 0, !.cur = NoCur] IN
+  IF ws.k < cx.count THEN [fresh EXCEPT !.entryOff = Clamp(@ + ws.enext), !.pc = "entry"]
+  ELSE [fresh EXCEPT !.entryOff = 0, !.pc = "end"]
 
 \* versym: one Half per symbol of the linked symbol table; symbol names through that table's string table
 SymCount(vs) == Len(vs) \div 2
@@ -405,18 +431,25 @@ Init ==
             ch = [cls |-> cl[1], le |-> cl[2], mode |-> m, pattern |-> p, ia |-> ia, cont |-> ct, dsh |-> <<>>]
        \/ m = "versym" /\ ch = [cls |-> cl[1], le |-> cl[2], mode |-> m, pattern |-> "packed", ia |-> "seq", cont |-> ct, dsh |-> <<1>>]
 
+IsBig(c) == <<c.cls, c.le, c.cont>> \in BigCombos
+EntriesBound(c) == IF IsBig(c) THEN MaxEntries ELSE SmallEntries
+AuxBound(c) == IF IsBig(c) THEN MaxAux ELSE SmallAux
+AllCombos == {<<c, l, t>> : c \in {32, 64}, l \in BOOLEAN, t \in {"plain", "decoy", "rev"}}
+QuickBig == {<<64, TRUE, "plain">>, <<32, FALSE, "decoy">>}
 AddEntry ==
-  /\ phase = "build" /\ ch.mode = "chains" /\ Len(ch.dsh) < MaxEntries
+  /\ phase = "build" /\ ch.mode = "chains" /\ Len(ch.dsh) < EntriesBound(ch)
   /\ ch' = [ch EXCEPT !.dsh = Append(@, 1)]
   /\ UNCHANGED <<phase, obj, img, exp, sec, wk>>
 AddAux ==
-  /\ phase = "build" /\ ch.mode = "chains" /\ ch.dsh # <<>> /\ ch.dsh[Len(ch.dsh)] < MaxAux
+  /\ phase = "build" /\ ch.mode = "chains" /\ ch.dsh # <<>> /\ ch.dsh[Len(ch.dsh)] < AuxBound(ch)
   /\ ch' = [ch EXCEPT !.dsh[Len(ch.dsh)] = @ + 1]
   /\ UNCHANGED <<phase, obj, img, exp, sec, wk>>
 
-AllShapes == UNION {[1..n -> 1..MaxAux] : n \in 0..MaxEntries}
+AllShapes == UNION {[1..n -> 1..SmallAux] : n \in 0..SmallEntries}
 NeedShapes(c) == IF c.mode = "versym" THEN {<<2>>} ELSE IF NeedMode = "rev" THEN {Rev(c.dsh)} ELSE AllShapes
 ChainCx(kind) == [kind |-> kind, bytes |-> img[kind], str |-> img.str, le |-> obj.le, count |-> img.count[kind]]
+\* look-ups do not need names: same machine, empty string table
+LookupCx(kind) == [ChainCx(kind) EXCEPT !.str = <<>>]
 CxOf(g, le, kind) == [kind |-> kind, bytes |-> g[kind], str |-> g.str, le |-> le, count |-> g.count[kind]]
 Finish ==
   /\ phase = "build"
@@ -456,18 +489,37 @@ Next == AddEntry \/ AddAux \/ Finish \/ WalkNext
 Spec == Init /\ [][Next]_vars
 
 (* ------------------------------ emission ------------------------------- *)
+\* A case is written as several lines, each below 8 KB: CSVWrite appends a line with one write() only up
+\* to that size, and lines of different workers must not interleave.  Every line carries the case key,
+\* its number and the number of lines of the case; the replay side reassembles them.
 Tag == obj.mode \o "/" \o obj.pattern \o "/" \o obj.ia \o "/" \o obj.cont
+CaseKey == ToString(<<obj.mode, obj.pattern, obj.ia, obj.cont, obj.cls, obj.le, Shape(obj.def), Shape(obj.need), Len(obj.versym)>>)
+Piece == 1200
+RECURSIVE SplitChunk(_)
+SplitChunk(c) == IF Len(c[2]) <= Piece \/ c[3] # 1 THEN <<c>>
+                 ELSE <<<<c[1], SubSeq(c[2], 1, Piece), 1>>>> \o SplitChunk(<<c[1] + Piece, SubSeq(c[2], Piece + 1, Len(c[2])), 1>>)
+RECURSIVE Slices(_, _)
+Slices(sq, n) == IF Len(sq) <= n THEN <<sq>> ELSE <<SubSeq(sq, 1, n)>> \o Slices(SubSeq(sq, n + 1, Len(sq)), n)
+CaseParts ==
+  LET cs == Chunks(ImageOf(obj, img))
+      pcs == Flat([i \in 1..Len(cs) |-> SplitChunk(cs[i])])
+      vss == Slices(exp.versym, 40)
+  IN << [t |-> "head", v |-> [tag |-> Tag, cls |-> obj.cls, le |-> obj.le,
+                              shape |-> <<Shape(obj.def), Shape(obj.need), Len(obj.versym)>>,
+                              idx |-> [versym |-> SIdx(obj.cont, "versym"), verdef |-> SIdx(obj.cont, "verdef"),
+                                       verneed |-> SIdx(obj.cont, "verneed"), dynsym |-> SIdx(obj.cont, "dynsym")],
+                              defq |-> {<<q, DefByIndex(obj, q)>> : q \in DefQueries(obj)},
+                              needq |-> {<<q, NeedByIndex(obj, q)[1], NeedByIndex(obj, q)[2]>> : q \in NeedQueries(obj)},
+                              has_indexes |-> HasIndexes(obj)]],
+        [t |-> "def", v |-> exp.def], [t |-> "need", v |-> exp.need] >>
+     \o [i \in 1..Len(pcs) |-> [t |-> "chunk", v |-> pcs[i]]]
+     \o [i \in 1..Len(vss) |-> [t |-> "versym", v |-> vss[i]]]
 Emit ==
   phase = "done" =>
-    CSVWrite("%1$s", <<ToJson(
-      [tag |-> Tag, cls |-> obj.cls, le |-> obj.le, shape |-> <<Shape(obj.def), Shape(obj.need), Len(obj.versym)>>,
-       chunks |-> Chunks(ImageOf(obj, img)),
-       expect |-> [idx |-> [versym |-> SIdx(obj.cont, "versym"), verdef |-> SIdx(obj.cont, "verdef"),
-                            verneed |-> SIdx(obj.cont, "verneed"), dynsym |-> SIdx(obj.cont, "dynsym")],
-                   def |-> exp.def, need |-> exp.need, versym |-> exp.versym,
-                   defq |-> {<<q, DefByIndex(obj, q)>> : q \in DefQueries(obj)},
-                   needq |-> {<<q, NeedByIndex(obj, q)[1], NeedByIndex(obj, q)[2]>> : q \in NeedQueries(obj)},
-                   has_indexes |-> HasIndexes(obj)]])>>, IOEnv.OUT)
+    LET parts == CaseParts
+        key == CaseKey
+    IN \A i \in 1..Len(parts) :
+         CSVWrite("%1$s", <<ToJson([k |-> key, n |-> Len(parts), i |-> i, t |-> parts[i].t, v |-> parts[i].v])>>, IOEnv.OUT)
 
 (* ------------------------------ properties ----------------------------- *)
 Walking == phase \in {"walk", "done"}
@@ -511,20 +563,23 @@ Discriminates ==
         => AdjWalk(ChainCx(kind), 0, 0) # Bare(exp[kind])
 PackedIsAdjacent ==
   phase = "done" /\ obj.pattern = "packed" => \A kind \in {"def", "need"} : AdjWalk(ChainCx(kind), 0, 0) = Bare(exp[kind])
-IndexSound ==
+\* sound: a hit carries the index (and is the declarative answer); complete: a carried index is found
+IndexResolution ==
   phase = "done" =>
-    /\ \A q \in DefQueries(obj) : LET r == FindDef(ChainCx("def"), W0(ChainCx("def")), q) IN
-                                   r # 0 => obj.def[r].ndx = q /\ r = DefByIndex(obj, q)
-    /\ \A q \in NeedQueries(obj) : LET r == FindNeed(ChainCx("need"), W0(ChainCx("need")), q) IN
-                                    r # <<0, 0>> => obj.need[r[1]].auxes[r[2]].other = q /\ r = NeedByIndex(obj, q)
-IndexComplete ==
-  phase = "done" =>
-    /\ \A q \in DefQueries(obj) : (\E k \in 1..Len(obj.def) : obj.def[k].ndx = q) => FindDef(ChainCx("def"), W0(ChainCx("def")), q) # 0
-    /\ \A q \in NeedQueries(obj) : NeedCarriers(obj, q) # {} => FindNeed(ChainCx("need"), W0(ChainCx("need")), q) # <<0, 0>>
-    /\ \A q \in DefCarried(obj) : q \in DefQueries(obj)
-    /\ \A q \in NeedCarried(obj) \ {0} : q \in NeedQueries(obj)
+    /\ \A q \in DefQueries(obj) :
+         LET r == FindDef(LookupCx("def"), W0(LookupCx("def")), q) IN
+         /\ (r # 0 => obj.def[r].ndx = q)
+         /\ ((\E k \in 1..Len(obj.def) : obj.def[k].ndx = q) => r # 0)
+         /\ r = DefByIndex(obj, q)
+    /\ \A q \in NeedQueries(obj) :
+         LET r == FindNeed(LookupCx("need"), W0(LookupCx("need")), q) IN
+         /\ (r # <<0, 0>> => obj.need[r[1]].auxes[r[2]].other = q)
+         /\ (NeedCarriers(obj, q) # {} => r # <<0, 0>>)
+         /\ r = NeedByIndex(obj, q)
+    /\ DefCarried(obj) \subseteq DefQueries(obj)
+    /\ (NeedCarried(obj) \ {0}) \subseteq NeedQueries(obj)
 HasIndexesIff ==
-  phase = "done" => ((FindNeed(ChainCx("need"), W0(ChainCx("need")), -1) # <<0, 0>>) <=> HasIndexes(obj))
+  phase = "done" => ((FindNeed(LookupCx("need"), W0(LookupCx("need")), -1) # <<0, 0>>) <=> HasIndexes(obj))
 \* the two string readers agree on every name offset of the generated table
 StringsAgree ==
   phase = "done" => LET st == StrInfo(obj) IN
@@ -555,5 +610,13 @@ Measure ==
          IF wk.pc \in {"auxnext", "next"} THEN 1 ELSE 0>>
 LexLess(a, b) == \E i \in 1..4 : a[i] < b[i] /\ \A x \in 1..(i - 1) : a[x] = b[x]
 Progress == [][phase = "walk" => LexLess(Measure', Measure) /\ \A i \in 1..4 : Measure'[i] >= 0]_vars
+\* some step is possible until the walk is done: WalkGuard is the disjunction of the guards of the
+\* reader actions written out (cheap); NeverStuck states it with ENABLED (thorough tier)
+WalkGuard ==
+  phase = "walk" =>
+    IF sec = "sym" THEN wk.i <= SymCount(img.vs)
+    ELSE \/ wk.pc = "entry" /\ EntryFits(ChainCx(sec), wk)
+         \/ wk.pc = "aux" /\ AuxFits(ChainCx(sec), wk)
+         \/ wk.pc \in {"auxnext", "next", "end"}
 NeverStuck == phase = "walk" => ENABLED WalkNext
 =============================================================================
